@@ -38,6 +38,11 @@ STEER = {
      (b) a NUMERIC EDGE that needs a particular magnitude: counts of 23/24, 255/256 items, lengths of 23/24, 64/65, 255/256 bytes, amounts around 2^16, 2^32, 2^63, 2^64-1, a percentage or price with a remainder, zero as a legal value (zero deposit, zero fee coefficient, zero withdrawal, zero ex-units, 0-of-k);
      (c) a RARE VARIANT of an enum that the common paths never see (pointer and Byron/Daedalus addresses, move-instantaneous-rewards, genesis delegation, committee certificates, the seven governance actions, Plutus V1/V3 next to V2, native `0 of k` / time-only scripts, the three auxiliary-data shapes, legacy array-form outputs);
      (d) something that shows only when THREE conditions meet (e.g. a configuration option AND a kind of input AND a retry).''',
+ '13': '''Prefer changes of one of these kinds, which earlier rounds used least:
+     (a) the LESS-VISITED PUBLIC ENTRY POINTS and what they leave behind for the common ones: `remove_*` functions, the plain (unchecked) setters next to the checked ones, deprecated setters (`set_mint`, `set_mint_asset`, `add_mint_asset`, `set_certs`, `set_withdrawals`), `fee_for_input` / `fee_for_output` / `min_fee` / `full_size` / `output_sizes` probes between two steps, `get_*` functions that hand out a collection the caller then changes and hands back, `build_tx_unsafe` / `build` next to `build_tx`;
+     (b) values that ARRIVE THROUGH A DECODER (from_bytes / from_hex / from_json) in another producer's legal encoding and are then used by the builder flows: what the value remembers about its encoding, what equality / ordering / hashing of such a value says, what happens when a decoded and a constructed copy of the same value meet in one collection or one transaction;
+     (c) hand-written `Clone` / `PartialEq` / `Ord` / `Hash` / `Default` of types that serve as map keys or set elements, and conversions between a typed collection and the builder that owns a copy of it;
+     (d) things that only show on the SECOND object: a second transaction built from the same sub-builders, a builder cloned half-way with both halves continued, a `FixedTransaction` that is signed, serialized, loaded again and signed again.''',
 }.get(rnd, '')
 
 TEMPLATE = '''You are helping to evaluate a verification harness by producing realistic, subtle bugs ("seeded changes") in a Rust library.
